@@ -21,6 +21,10 @@ Each `op` is one token; fields are separated by `|`.  The output is one field pe
     addlease|now|avail|renew|cancel                                        → ok | E:<Err>
     renew|now|secret                                                       → ok | E:<Err>
     cancel|n|secret        `cancel_lease(secret)` on the file of share n    → ok:<freed> | E:<Err> | E:NoShare
+    alloc|now|avail|n|size|renew|cancel   allocate_buckets for one immutable share  → ok:<created 0/1>:<already got> | E:<Err>
+    bwrite|n|off|hex       BucketWriter.write on the open upload of share n → ok | E:<Err> | E:NoWriter
+    bclose|n               BucketWriter.close (incoming → bucket)           → ok | E:NoWriter
+    idump                  raw bytes of the incoming (open upload) files    → like dump
 
 Bytes are lowercase hex (`-` = empty).  "rle bytes" = chunks joined by `*`, a chunk being hex or
 `z<count>` (a run of zero bytes).  `H` is the table of the abstract hash (blake2b, computed by the real
@@ -195,10 +199,35 @@ def stepOp (c : Ctx) (b : Bucket) (op : String) : Option (Bucket × String) :=
       pure (b', showErr e)
   | _ => none
 
-def runOps (c : Ctx) (b : Bucket) (acc : List String) : List String → Option (List String)
+/-- upload ops (state = bucket + incoming files), everything else is `stepOp` on the bucket -/
+def stepOp2 (c : Ctx) (st : Bucket × Incoming) (op : String) : Option ((Bucket × Incoming) × String) :=
+  match op.splitOn "|" with
+  | ["alloc", now, avail, n, size, renew, cancel] => do
+      let env := envOf c (← now.toNat?) (← avail.toNat?)
+      let renew ← bytesOfHex renew
+      let cancel ← bytesOfHex cancel
+      if !(knows c renew && knows c cancel) then none
+      let (b', inc', created, e) := allocate env st.1 st.2 (← n.toNat?) (← size.toNat?) renew cancel
+      match e with
+      | some e => pure ((b', inc'), "E:" ++ e.toString)
+      | none => pure ((b', inc'), s!"ok:{if created then 1 else 0}:" ++
+          (if b'.isEmpty then "_" else ",".intercalate ((sortBucket b').map fun p => toString p.1)))
+  | ["bwrite", n, off, d] => do
+      match bucketWrite st.2 (← n.toNat?) (← off.toNat?) (← bytesOfHex d) with
+      | none => pure (st, "E:NoWriter")
+      | some (inc', none) => pure ((st.1, inc'), "ok")
+      | some (inc', some e) => pure ((st.1, inc'), "E:" ++ e.toString)
+  | ["bclose", n] => do
+      match bucketClose st.1 st.2 (← n.toNat?) with
+      | none => pure (st, "E:NoWriter")
+      | some st' => pure (st', "ok")
+  | ["idump"] => some (st, showDump (sortBucket (st.2.map fun p => (p.1, p.2.2))))
+  | _ => (stepOp c st.1 op).map fun (b', out) => ((b', st.2), out)
+
+def runOps (c : Ctx) (st : Bucket × Incoming) (acc : List String) : List String → Option (List String)
   | [] => some acc.reverse
-  | op :: rest => match stepOp c b op with
-    | some (b', out) => runOps c b' (out :: acc) rest
+  | op :: rest => match stepOp2 c st op with
+    | some (st', out) => runOps c st' (out :: acc) rest
     | none => none
 
 def kv (key : String) (tok : String) : Option String :=
@@ -212,7 +241,7 @@ def handle : List String → String
       let h ← kv "H" h
       let pc ← (if p == "1" then some true else if p == "0" then some false else none)
       let c : Ctx := { precheck := pc, nodeid := (← bytesOfHex n), tbl := (← parseHashTable h) }
-      runOps c [] [] ops) with
+      runOps c ([], []) [] ops) with
     | some outs => ";".intercalate outs
     | none => "bad-op"
   | _ => "bad-op"
